@@ -364,6 +364,35 @@ def jwe_ops(op: int, vary: int, fix: int, name: str, has_zip: bool, allow: Optio
     return _jwe_ops(op, alg, enc, has_zip, zipname, al, via_registry, v0, v1)
 
 
+def jwe_second_recipient(alg2: str, inc2: bool, extra: Optional[str], first: bool, v0: bool, v1: bool, v2: bool) -> bool:
+    """
+    pre: len(alg2) <= 18 and (extra is None or len(extra) <= 18)
+    post: _
+    """
+    # general JSON with two recipients, registry with verify_all_recipients=False: one recipient (A128KW, allowed) opens the message; the
+    # OTHER recipient's "alg" is attacker-chosen.  The call may return only if that name is allowed too -- an unlisted or unknown name in any
+    # recipient makes the call fail, wherever the recipient stands
+    global _JP
+    rt.tick()
+    if _JP is None:
+        _JP = C16.patches()
+    allow = ["A128KW", "A128GCM"] + ([alg2] if inc2 else []) + ([extra] if extra is not None else [])
+    env = C16.jwe_env({"enc": "A128GCM"}, [v0, v1, v2, v2])
+    env.ceks = [bytes(16), bytes(16)]
+    good, other = {"header": {"alg": "A128KW"}, "encrypted_key": "EKSEG"}, {"header": {"alg": alg2}, "encrypted_key": "EKSEG"}
+    value = {"protected": "PROTSEG", "iv": "IVSEG", "ciphertext": "CTSEG", "tag": "TAGSEG", "recipients": [good, other] if first else [other, good]}
+    reg = JWERegistry(algorithms=allow, verify_all_recipients=False)
+    with env.installed(_JP):
+        try:
+            jwe.decrypt_json(value, _JK["oct16"], registry=reg)
+            returned = True
+        except ice.HarnessError:
+            raise
+        except Exception:  # noqa
+            returned = False
+    return not (returned and not spec_jwe("alg", alg2, allow))
+
+
 def jwe_ops_witness(op: int, alg: str, enc: str, allow: Optional[List[str]], v0: bool, v1: bool) -> bool:
     """
     pre: 0 <= op <= 3 and len(alg) <= 18 and len(enc) <= 13
@@ -410,6 +439,29 @@ def replay_state_leak():
 def replay(func, call):
     if call == "@nondeterministic":
         return replay_state_leak()
+    if func == "jwe_second_recipient":
+        import warnings
+        warnings.simplefilter("ignore")
+        from vlib import refjose as R
+        from joserfc.jwk import JWKRegistry
+        from cryptography.hazmat.primitives.keywrap import aes_key_wrap
+        alg2, inc2, extra, first, v0, v1, v2 = eval("(" + call + ",)")
+        allow = ["A128KW", "A128GCM"] + ([alg2] if inc2 else []) + ([extra] if extra is not None else [])
+        jwk = R.test_key("oct16")
+        cek = bytes(range(16))
+        pseg = R.b64e(b'{"enc":"A128GCM"}')
+        ct, tag = R.content_encrypt("A128GCM", cek, bytes(12), pseg.encode(), b"two recipients")
+        ek = R.b64e(aes_key_wrap(R.b64d(jwk["k"]), cek))
+        good, other = {"header": {"alg": "A128KW"}, "encrypted_key": ek}, {"header": {"alg": alg2}, "encrypted_key": ek}
+        value = {"protected": pseg, "iv": R.b64e(bytes(12)), "ciphertext": R.b64e(ct), "tag": R.b64e(tag), "recipients": [good, other] if first else [other, good]}
+        try:
+            out = jwe.decrypt_json(value, JWKRegistry.import_key(jwk), registry=JWERegistry(algorithms=allow, verify_all_recipients=False))
+            returned, what = True, "returned %r" % (out.plaintext,)
+        except Exception as e:  # noqa
+            returned, what = False, "%s" % type(e).__name__
+        ok = spec_jwe("alg", alg2, allow)
+        return {"violated": returned and not ok, "key": "c05-second-recipient", "detail": "general JSON, recipients %s, allow-list %r, verify_all_recipients=False -> %s"
+                % (["A128KW", alg2] if first else [alg2, "A128KW"], allow, what)}
     if func.startswith("jwe_ops"):
         import warnings
         warnings.simplefilter("ignore")
